@@ -191,6 +191,15 @@ def check_indicators(rep, repo):
                 cut_ok = True
         recognised = bool(ba)
         ok = tot_ok and cut_ok
+    inner = comp
+    while inner[0] == 'call' and inner[1] in (S('list'), S('tuple')) and len(inner[2]) == 1:
+        inner = inner[2][0]
+    if not recognised and inner[0] == 'call' and show(inner[1]).endswith('random.choice'):
+        sz = (bind_api(inner) or {}).get('size')
+        if sz is not None and sz[0] == 'tuple':
+            # one matrix draw: every row has the same length, whatever the length of its list
+            recognised, ok = True, False
+            got = 'one %s matrix of indicators: row k has %s entries, not len(list k)' % (show(sz)[:80], show(sz[1][-1])[:60])
     if not ok and not recognised:
         rep.inconclusive('C13.R4', f.where, 'the indicator vectors are drawn in a recognised way', got=got[:160])
         return
